@@ -113,6 +113,34 @@ func runPipeline(job *Job) Result {
 						st.Successes++
 						offs = o
 					}
+					if offs != len(buf) {
+						continue
+					}
+					// ... followed by an INCOMPLETE message: whatever the parser answers for the truncated message alone
+					// (more bytes, truncated body in no-more-data mode, an error) it must answer at the later offset too
+					nxt := msgs[(idx[len(idx)-1]+1)%len(msgs)]
+					for _, t := range []int{len(nxt) - 1, len(nxt) - 3, len(nxt) / 2, 15} {
+						if t <= 0 || t >= len(nxt) {
+							continue
+						}
+						part := nxt[:t]
+						y := NewObj(c).(*msgObj)
+						ao, av := Call(y, part, 0)
+						aobs := Obs(y, part, 0)
+						buf2 := append(append([]byte(nil), buf...), part...)
+						x.reset()
+						po, pv := Call(x, buf2, len(buf))
+						st.Calls += 2
+						st.Pairs++
+						pobs := Obs(x, buf2, len(buf))
+						if pv != av || (pv != "PANIC" && po-len(buf) != ao) || (pv != "more" && pv != "PANIC" && pobs != aobs) {
+							if len(viol) < job.MaxViol {
+								viol = append(viol, Violation{Prop: "C06", What: "incomplete message after pipelined messages parsed differently from the same bytes alone",
+									Cfg: c, Input: toInts(buf2), Text: fmt.Sprintf("%q", buf2), Cuts: []int{len(buf)}, Sig: "pipeline-tail",
+									Detail: fmt.Sprintf("at offset %d: (%s,%d) %s\nalone: (%s,%d) %s", len(buf), pv, po-len(buf), pobs, av, ao, aobs)})
+							}
+						}
+					}
 				}
 			}
 			mu.Lock()
